@@ -47,6 +47,15 @@ func (e *Enc) script(o *Obligation) string {
 	for _, d := range e.decls {
 		body.WriteString(d)
 	}
+	for _, ax := range e.axioms {
+		for _, sy := range ax.syms {
+			if strings.Contains(body.String(), "("+sy+" ") {
+				asserts = append(asserts, ax.term)
+				body.WriteString(ax.term)
+				break
+			}
+		}
+	}
 	raws := selectRaw(e.w.CS.SMT, e.mode.String(), body.String())
 	for _, r := range raws {
 		body.WriteString(r)
